@@ -192,7 +192,7 @@ def table_layout(context, table, bottom_space, skip_stack, containing_block,
                         context, cell, bottom_space, cell_skip_stack,
                         page_is_empty=True, absolute_boxes=[], fixed_boxes=[],
                         adjoining_margins=None, discard=False, max_lines=None)
-                    cell_resume_at = {0: None}
+                    cell_resume_at = cell_skip_stack or {0: None}
                 else:
                     cell = new_cell
 
